@@ -42,6 +42,9 @@ inductive Err
   | noncomposite (name : String) (loc : Nat)
   /-- `assert not referenced_table.alias` / KeyError in the alias loop (never observed). -/
   | badAlias (name : String) (loc : Nat)
+  /-- `Cannot use imported module '…' as a field`: the head of a field reference is bound to an
+  import alias, i.e. to a whole module (repair of `_resolve_head_of_field_reference`) -/
+  | moduleAsField (name : String) (loc : Nat)
   deriving DecidableEq, Repr
 
 /-! ## `_construct_symbol_tables` -/
@@ -322,6 +325,24 @@ def resolveRefs (T : Table) : List Ref → List Err → List (Option Path) × Li
     let y := resolveRefs T rs (errs ++ x.2)
     (x.1 :: y.1, y.2)
 
+/-- `_resolve_head_of_field_reference`: `_resolve_reference` on the first element of the path;
+a head bound to a canonical name with empty object path — a whole module, reached through an
+import alias — is no field: one more error (the head stays bound). -/
+def resolveHead (T : Table) (clean : Bool) (r : Ref) : Option Path × List Err :=
+  let x := resolveRef T clean r
+  match x.1, r.names with
+  | some d, (n, _) :: _ =>
+    if d.length = 1 then (x.1, x.2 ++ [Err.moduleAsField n r.loc]) else x
+  | _, _ => x
+
+/-- The traversal over the heads of the field references (same shared error list). -/
+def resolveHeads (T : Table) : List Ref → List Err → List (Option Path) × List Err
+  | [], errs => ([], errs)
+  | r :: rs, errs =>
+    let x := resolveHead T errs.isEmpty r
+    let y := resolveHeads T rs (errs ++ x.2)
+    (x.1 :: y.1, y.2)
+
 /-! ## `_resolve_field_reference` and `ir_util.find_object_or_none` -/
 
 inductive ObjKind
@@ -469,9 +490,10 @@ inductive Outcome
   | errors (es : List Err)
   /-- `resolve_symbols` succeeded: canonical names of the plain references and of the heads -/
   | resolved (refs : List Path) (heads : List Path)
-  /-- a reference outside any type definition (value of a module-level attribute): the
-  traversal has no `current_scope` to pass to `_resolve_reference` and `traverse_ir` raises
-  AssertionError -/
+  /-- not produced any more: a reference outside any type definition (value of a module-level
+  attribute) used to have no `current_scope` (`traverse_ir` raised AssertionError); since the
+  repair `_set_visible_scopes_for_module` gives it the module as current scope, i.e.
+  `Ctx.cur` = `[module]`, `Ctx.visible` = the module and the anonymous imports -/
   | crash
   /-- internal inconsistency (a reference without a result although no error was recorded) -/
   | broken
@@ -497,9 +519,8 @@ def fullTable (M : ModuleDesc) : Table × List Err :=
 def resolveSymbols (M : ModuleDesc) (refs : List Ref) (frefs : List FRef) : Outcome :=
   let st := fullTable M
   if st.2 ≠ [] then .errors st.2 else
-  if (refs ++ frefs.map headRef).any (fun r => r.ctx.types.isEmpty) then .crash else
   let a := resolveRefs st.1 refs []
-  let b := resolveRefs st.1 (frefs.map headRef) a.2
+  let b := resolveHeads st.1 (frefs.map headRef) a.2
   if b.2 ≠ [] then .errors b.2 else
   match allSome a.1, allSome b.1 with
   | some ra, some rb => .resolved ra rb
